@@ -503,14 +503,39 @@ fn sep(rng: &mut Rng, lay: &Layout, indent: usize, s: &mut String) {
         return;
     }
     if rng.chance(1, 6) {
-        s.push_str(pk(rng, &[" ", "  ", " \t"])); // trailing whitespace
+        // trailing whitespace: every ASCII-whitespace byte, VT (not ASCII whitespace for Rust) and Unicode blanks
+        s.push_str(pk(rng, &[" ", "  ", " \t", "\x0c", "\x0b", " \x0c ", "\u{a0}", "\u{2003}"]));
     }
     s.push_str(lay.nl);
     if rng.chance(1, 10) {
         s.push_str(lay.nl);
     }
+    row_start_blanks(rng, s);
     for _ in 0..indent {
         s.push_str(if rng.chance(1, 5) { "\t" } else { "  " });
+    }
+}
+
+/// What a row may BEGIN with besides spaces and tabs: form feed, a stray CR, VT (which `u8::is_ascii_whitespace`
+/// does not count), mixed runs, Unicode blanks (NBSP, EM SPACE — never trimmed), and blank prefixes longer than the
+/// 180-byte limit.
+fn row_start_blanks(rng: &mut Rng, s: &mut String) {
+    match rng.below(28) {
+        0 | 1 => s.push('\x0c'),
+        2 | 3 => s.push('\r'),
+        4 | 5 => s.push('\x0b'),
+        6 => s.push_str(" \x0c\t"),
+        7 => s.push_str("\x0c\r \x0c"),
+        8 => s.push_str("\r\r "),
+        9 => s.push_str("\u{a0}"),
+        10 => s.push_str("\u{2003} "),
+        11 => s.push_str("\t\x0b "),
+        12 => {
+            for _ in 0..rng.range(150, 260) {
+                s.push(' ');
+            }
+        }
+        _ => {}
     }
 }
 
@@ -719,7 +744,11 @@ fn gen_lst(rng: &mut Rng) -> (Vec<u8>, &'static str) {
         if rng.below(8) < same {
             s.push(' ');
         } else {
+            if rng.chance(1, 8) {
+                s.push_str(pk(rng, &["\x0c", "\x0b", " \x0c", "\u{a0}"]));
+            }
             s.push_str(if crlf { "\r\n" } else { "\n" });
+            row_start_blanks(rng, &mut s);
             if rng.chance(1, 3) {
                 s.push_str("  ");
             }
